@@ -45,6 +45,11 @@ def main(argv: list[str]) -> int:
         rules.check(model, run)
         if tier == 'thorough' and hasattr(rules, 'check_thorough'):
             rules.check_thorough(model, run)
+        if tier == 'thorough' and not os.environ.get('VERIF_REPO'):
+            # the thorough tier also turns the checker on itself: every seeded breakage of this property, every repair
+            # re-introduced, the neutral seeds and the two automatic twins, each on a scratch copy of the tree.  The tally
+            # goes into the evidence; the verdict of the check is decided by the rules on the real tree only.
+            run.extra['selftest'] = _selftest(prop)
         code = run.finish()
     except AnalysisError as e:
         print('ANALYSIS-ERROR property=%s %s' % (prop, e))
@@ -59,6 +64,36 @@ def main(argv: list[str]) -> int:
         traceback.print_exc(file=sys.stdout)
         code = 2
     return code
+
+
+def _selftest(prop: str) -> dict:
+    import multiprocessing
+
+    here = os.path.dirname(os.path.dirname(os.path.abspath(__file__)))
+    if here not in sys.path:
+        sys.path.insert(0, here)
+    try:
+        from selftest.run import run_one, variants
+
+        vs = variants([prop], {'seed', 'auto', 'revert', 'mutant', 'twin'})
+        with multiprocessing.Pool(min(14, max(1, len(vs)))) as pool:
+            rows = pool.map(run_one, vs)
+    except Exception as e:  # noqa: BLE001
+        return {'error': repr(e)[:200]}
+    out = {'variants': len(rows), 'killed': 0, 'survived': [], 'silent': 0, 'alarmed': [], 'skipped': []}
+    for r in rows:
+        if r['status'] == 'killed':
+            out['killed'] += 1
+        elif r['status'] == 'silent':
+            out['silent'] += 1
+        elif r['status'] in ('skipped', 'error'):
+            out['skipped'].append(r['name'])
+        elif r['kind'] == 'mutant':
+            out['survived'].append(r['name'])
+        else:
+            out['alarmed'].append(r['name'])
+    out['detail'] = [{'name': r['name'], 'kind': r['kind'], 'status': r['status'], 'reports': r.get('reports', [])[:2]} for r in rows]
+    return out
 
 
 if __name__ == '__main__':
